@@ -337,6 +337,16 @@ fn c06(tier: Tier, seed: u64) -> i32 {
 		let case = gen_seq(&mut Src::new(bytes), &cfg);
 		eval_seq_case(&e, &case, want)
 	});
+	// compile-time half: a key cannot reach a thread from outside its own history
+	match crate::tyeng::Toolchain::locate() {
+		Ok(tc) => {
+			let pairs = types_pairs_for("C06", tier);
+			let items: Vec<usize> = (0..pairs.len()).collect();
+			ctx.enumerate("types-no-key-from-another-thread-copy-or-forgery", items, |i, want| types_report(&tc, &pairs[*i], want));
+			tc.cleanup();
+		}
+		Err(e) => ctx.health_errors.push(format!("TYPES engine: {e}")),
+	}
 	ctx.require_label("panic_in_scoped", 50);
 	ctx.require_label("forget_", 50);
 	ctx.require_label("try_failed", 50);
@@ -894,6 +904,25 @@ fn c02(tier: Tier, seed: u64) -> i32 {
 		eval_seq_case(&e, &case, want)
 	});
 	conc_campaign(&mut ctx, "C02", tier);
+	// "a scoped closure runs only while all of its locks are held": a checked or
+	// sorted collection whose member list can be changed afterwards hands out
+	// members it never locked; decided at compile time
+	match crate::tyeng::Toolchain::locate() {
+		Ok(tc) => {
+			let pairs: Vec<crate::tyeng::Pair> = crate::tyeng::families_mutation_after_check()
+				.into_iter()
+				.map(|mut p| {
+					p.prop = "C02".into();
+					p.family = "C02-member-list-fixed-after-construction".into();
+					p
+				})
+				.collect();
+			let items: Vec<usize> = (0..pairs.len()).collect();
+			ctx.enumerate("types-member-list-cannot-change-after-construction", items, |i, want| types_report(&tc, &pairs[*i], want));
+			tc.cleanup();
+		}
+		Err(e) => ctx.health_errors.push(format!("TYPES engine: {e}")),
+	}
 	ctx.require_label("world.nested", 1000);
 	ctx.finish()
 }
@@ -1365,7 +1394,11 @@ fn c07(tier: Tier, seed: u64) -> i32 {
 		let tc = crate::tyeng::Toolchain::locate();
 		match tc {
 			Ok(tc) => {
-				let pairs = types_pairs("C07");
+				let mut pairs = types_pairs("C07");
+				// an owned collection counts as one lock in every duplicate check; that is
+				// sound only while no reference to one of its members can leave a hold
+				// (methods read from the tree's API surface)
+				surface_pairs(&mut ctx, "C07", &mut pairs);
 				let items: Vec<usize> = (0..pairs.len()).collect();
 				ctx.enumerate("types-unchecked-ctor-needs-owned-input", items, |i, want| types_report(&tc, &pairs[*i], want));
 				tc.cleanup();
@@ -1395,6 +1428,16 @@ pub fn types_pairs_for(prop: &str, tier: Tier) -> Vec<crate::tyeng::Pair> {
 	};
 	match prop {
 		"C14" => crate::tyeng::families_c14(&subjects),
+		// a second key on a thread can also come from another thread, from a copy
+		// or from a forgery: the routes the compiler is supposed to close
+		"C06" => crate::tyeng::families_c14(&crate::tyeng::Subj::all())
+			.into_iter()
+			.filter(|p| ["K1-key-is-send", "K3-", "K4-", "K9-key-carrying"].iter().any(|f| p.family.starts_with(f)))
+			.map(|mut p| {
+				p.prop = "C06".into();
+				p
+			})
+			.collect(),
 		"C15" => {
 			let mut v = crate::tyeng::families_c15(&subjects);
 			// "constructors that skip the duplicate check ... require unsafe or owned inputs"
@@ -1423,6 +1466,8 @@ fn types_report(tc: &crate::tyeng::Toolchain, p: &crate::tyeng::Pair, want: bool
 		"C14" => "C14",
 		"C15" => "C15",
 		"C01" => "C01",
+		"C06" => "C06",
+		"C02" => "C02",
 		_ => "C07",
 	};
 	match &out {
@@ -1457,6 +1502,14 @@ fn types_report(tc: &crate::tyeng::Toolchain, p: &crate::tyeng::Pair, want: bool
 			});
 			rep.replay = Some(json!({"engine": "types", "pair": p}));
 		}
+		PairOutcome::GeneratorError(e) if p.family.starts_with("S1-") => {
+			if std::env::var_os("HLV_DEBUG_TYPES").is_some() {
+				eprintln!("S1 not expressible: {}: {}", p.name, e.chars().take(400).collect::<String>());
+			}
+			// a discovered method this template cannot call (ambiguous inference,
+			// a trait that is not in scope): not expressible, nothing asserted
+			rep.labels.push("types.surface.method_not_expressible".into());
+		}
 		PairOutcome::GeneratorError(e) => {
 			rep.labels.push("types.generator_error".into());
 			rep.inconclusive = Some(format!("generator error in {} / {}: {}", p.family, p.name, e.chars().take(300).collect::<String>()));
@@ -1476,7 +1529,11 @@ pub fn types_campaign(ctx: &mut CheckCtx, prop: &str, tier: Tier, quick_n: u64) 
 			return false;
 		}
 	};
-	let pairs = types_pairs_for(prop, tier);
+	let mut pairs = types_pairs_for(prop, tier);
+	// API-surface-driven part: the methods are read from the tree under test
+	if prop == "C15" {
+		surface_pairs(ctx, prop, &mut pairs);
+	}
 	let total = pairs.len();
 	// the product is small enough to be compiled completely in both tiers; the
 	// thorough tier adds the API-variant axis (see tyeng::variants)
@@ -1492,6 +1549,25 @@ pub fn types_campaign(ctx: &mut CheckCtx, prop: &str, tier: Tier, quick_n: u64) 
 	}
 	tc.cleanup();
 	true
+}
+
+/// Add the S1 family (generated from rustdoc's JSON of /repo) to `pairs`.
+pub fn surface_pairs(ctx: &mut CheckCtx, prop: &str, pairs: &mut Vec<crate::tyeng::Pair>) {
+	match crate::surface::rustdoc_json() {
+		Ok(doc) => {
+			let (ms, st) = crate::surface::methods(&doc);
+			let n0 = pairs.len();
+			pairs.extend(crate::surface::families_surface(prop, &ms));
+			ctx.extra.insert(
+				"api_surface".into(),
+				json!({"source": "cargo +nightly rustdoc --output-format json on /repo's working tree", "hold_types": crate::surface::HOLD_TYPES, "methods_seen": st.methods_seen, "by_reference_and_reference_in_result": ms.len(), "skipped_by_value_or_extra_args": st.skipped_by_value_or_extra_args, "skipped_no_reference_in_result": st.skipped_no_reference_in_result, "pairs_generated": pairs.len() - n0, "methods": ms.iter().map(|m| format!("{}::{}", m.owner, m.name)).collect::<Vec<_>>()}),
+			);
+			if ms.len() < 8 {
+				ctx.health_errors.push(format!("API surface: only {} by-reference methods with a reference in their result were found on the hold types (Deref / AsRef alone are more)", ms.len()));
+			}
+		}
+		Err(e) => ctx.health_errors.push(format!("API surface: {e}")),
+	}
 }
 
 fn types_check(prop: &'static str, tier: Tier, seed: u64) -> i32 {
